@@ -409,7 +409,7 @@ func alwaysPasses(f *ssa.Function, pd Pred) bool {
 			continue
 		}
 		n++
-		if !ff.Holds(ret, "p") {
+		if !ff.Holds(ret, "p") && !tailReturnsMatching(ret, inner) {
 			ok = false
 		}
 	}
@@ -461,11 +461,11 @@ func (pd Pred) match(i ssa.Instruction) bool {
 		return false
 	}
 	if ret, ok := i.(*ssa.Return); ok {
-		if !pd.NilReturn && !pd.ErrReturn {
-			return false
-		}
 		if ret.Block() == ret.Parent().Recover {
 			return false // panic exit, not a normal return
+		}
+		if !pd.NilReturn && !pd.ErrReturn {
+			return pd.Where != nil && len(pd.Calls) == 0
 		}
 		k, has := returnErrKind(ret)
 		if !has {
@@ -498,6 +498,7 @@ type GenSpec struct {
 	Always  bool // generate at the instruction regardless of outcome (default: on the success edge when the call returns an error)
 	OnTrue  bool // generate on the edge where the bool result is true
 	OnFalse bool
+	edges   map[Edge]bool // explicit CFG edges on which the fact is established (computed by the rule)
 }
 
 type KillSpec struct {
@@ -538,12 +539,16 @@ func runFlowRuleOn(c *Ctx, fr FlowRule, fn *ssa.Function) int {
 	genE := map[Edge][]string{}
 	genIm := map[ssa.Instruction][]string{}
 	for _, g := range fr.Gen {
-		matched := 0
+		for e := range g.edges {
+			genE[e] = append(genE[e], g.Fact)
+		}
+		if g.edges != nil {
+			continue
+		}
 		eachInstr(fn, func(b *ssa.BasicBlock, idx int, i ssa.Instruction) {
 			if !g.On.match(i) {
 				return
 			}
-			matched++
 			v, isVal := i.(ssa.Value)
 			if g.Always || !isVal {
 				genIm[i] = append(genIm[i], g.Fact)
@@ -649,4 +654,27 @@ func instrLabel(i ssa.Instruction) string {
 		return "store"
 	}
 	return fmt.Sprintf("%T", i)
+}
+
+// tailReturnsMatching: the error returned by ret is the error result of a call matching pd
+// (`return f(x)`): the call happened and its verdict is handed to the caller unchanged.
+func tailReturnsMatching(ret *ssa.Return, pd Pred) bool {
+	for _, res := range ret.Results {
+		if !isErrorType(res.Type()) {
+			continue
+		}
+		v := res
+		if ld, ok := v.(*ssa.UnOp); ok && ld.Op == token.MUL {
+			if st, _ := reachingStore(ld); st != nil {
+				v = st.Val
+			}
+		}
+		if ex, ok := v.(*ssa.Extract); ok {
+			v = ex.Tuple
+		}
+		if call, ok := v.(*ssa.Call); ok && pd.match(call) {
+			return true
+		}
+	}
+	return false
 }
